@@ -449,6 +449,40 @@ def run_c20(run_, rng, tier, exe):
             adds = sum(1 for o, _, _ in sum((h["body"] for h in c["hs"]), []) if o == "+")
             if len(lines) - nd != len(c["a"]) + adds:
                 bad.append((i, "-D output duplicates or drops common lines", rep))
+    # -D on targets that have drifted (hunks placed with fuzz, with offsets, under -l): judged as define_eval states it —
+    # evaluated with SYM defined the output is what the same call writes without -D, with SYM undefined it is the target
+    dr = [c for c in applyc.family_drifted(rng, 1500 if q else 25000)]
+    for c in dr:
+        c["f"] = [(t.replace("#", "h"), "L") for t, nl in c["f"]]
+        c["hs"] = [dict(h, body=[(o_, t.replace("#", "h"), "L") for o_, t, nl in h["body"]]) for h in c["hs"]]
+        c["opts"]["nl"] = "native"; c["opts"].pop("v", None)
+    with_d = [applyc.apply_case(applyc.opt_str(D=hx("SYM"), **c["opts"]), "unified", c["f"], c["hs"]) for c in dr]
+    without = [applyc.apply_case(applyc.opt_str(**c["opts"]), "unified", c["f"], c["hs"]) for c in dr]
+    impl2, model2 = run_both(with_d + without)
+    nd_ = len(dr)
+    for i, c in enumerate(dr):
+        run_.count(with_d[i], True, "-D drifted")
+        if impl2[i] != model2[i]:
+            mism.append((i, "L1 APPLY -D (drifted)", dict(case=with_d[i], impl=impl2[i], model=model2[i])))
+        rd, rn = applyc.parse_result(impl2[i]), applyc.parse_result(impl2[nd_ + i])
+        if rd is None or rn is None:
+            continue
+        def tl(b_):
+            ls_ = b_.decode("latin-1").split("\n")
+            if ls_ and ls_[-1] == "":
+                ls_.pop()
+            return ls_
+        lines = tl(rd["out"])
+        new = cpp_eval(lines, True, "SYM"); old = cpp_eval(lines, False, "SYM")
+        rep = dict(case=with_d[i], output=rd["out"].decode("latin-1"), without_D=rn["out"].decode("latin-1"))
+        if new is None or old is None:
+            bad.append((i, "-D output (target drifted) has unbalanced conditionals", rep))
+        elif new != tl(rn["out"]):
+            bad.append((i, "-D output evaluated with SYM defined differs from what the same call writes without -D", rep))
+        elif old != [t for t, nl in c["f"]]:
+            bad.append((i, "-D output evaluated with SYM undefined is not the original target", rep))
+        elif rd["failed"] != rn["failed"]:
+            bad.append((i, "-D changes the number of rejected hunks (%d vs %d)" % (rd["failed"], rn["failed"]), rep))
     # the Gallina evaluator and the Python one must agree on every output seen (the oracle of this check is the specification
     # of the theorem, not a second opinion)
     gres = run_model([g[1] for g in geval])
